@@ -39,15 +39,15 @@ def carrierWriters : List (String × List String) :=
    ("linked", ["ActionTypeHint.is_init_arg_mapping_typehint", "adapt_class_type", "adapt_typehints"]),
    ("dcDefault", ["adapt_typehints"])]
 
-/-- is the write classified as something that is no carrier (fresh object, value object, restored, memo of a
-    constant, builder, outside the operations considered)? -/
-def nonCarrier (c : String) : Bool :=
-  ["fresh-object", "value-object", "restored", "memo-of-constant", "written-before-read", "builder", "outside"].any
-    fun pre => pre.isPrefixOf c
+/-- classifications that are no carrier: object built during the call, value being computed, attribute put back
+    before the function returns, memo of a constant, write followed by its only read, builder reached by name only,
+    outside the operations considered -/
+def nonCarrier : List String :=
+  ["fresh-object", "value-object", "restored", "memo-of-constant", "written-before-read", "builder", "outside"]
 
 /-- every regenerated write is either no carrier or a carrier written by a function the model expects -/
 def writesKnown : Bool :=
   Jap.Gen.PState.writes.all fun e =>
-    nonCarrier e.2.2.2 || carrierWriters.any fun cw => cw.1 == e.2.2.2 && cw.2.contains e.1
+    nonCarrier.contains e.2.2.2.1 || carrierWriters.any fun cw => cw.1 == e.2.2.2.1 && cw.2.contains e.1
 
 end Jap.PState
